@@ -122,7 +122,7 @@ def run_nested(lib, case):
             w.h[tp].hooks = saved
 
     def outer_hook(h, payload):
-        if h is not w.h['p1'] or len(h.frames) != 1:
+        if h is not w.h['p1'] or len(h.frames) != 2:
             return
         count['n'] += 1
         if count['n'] == case['at']:
